@@ -4,7 +4,7 @@ PROPS = {
     "C01": {
         "bin": "px_stream", "budget_ms": 30000, "wall_cap": {"quick": 600, "thorough": 2400},
         "rule": "stateless sequence exploration: every sequence of d tokens (d<=3) over the per-emulation alphabets (all 256 bytes, the complete CSI final x intermediate x parameter table, "
-                "ESC/DCS/OSC/APS/music/native command tokens, every proper prefix of every token) from every reachable start context (byte prefixes) on the listed screen sizes; plus long histories made small by the macro sub-language (a macro of 5000 empty sixel sequences invoked 12 times, a macro of 2000 small images invoked 20 times: resources held per sequence must not add up); "
+                "ESC/DCS/OSC/APS/music/native command tokens, every proper prefix of every token) from every reachable start context (byte prefixes) on the listed screen sizes; plus long histories made small by the macro sub-language (a macro of 5000 empty sixel sequences invoked 12 times, a macro of 2000 small images invoked 20 times, 45000 empty sixel sequences without a macro: resources held per sequence must not add up); "
                 "non-trivial = the run produced at least one error value or panic; states = distinct observable end states (caret, terminal state, cells)",
         "level_text": "all token sequences up to the stated depth are run on the real parsers, one character at a time under catch_unwind, in killable worker processes; no sampling",
         "level_note": "covers sequences of <=3 tokens beyond a context (contexts are themselves byte prefixes); characters are U+0000..U+00FF; cases cut by the CPU budget belong to C03 and are not judged here",
@@ -26,7 +26,7 @@ PROPS = {
     "C03": {
         "bin": "px_cost", "parts": [{"bin": "px_cost"}, {"bin": "px_load"}], "budget_ms": 3000, "mem_cap_mb": 1024, "judge_budget": True, "wall_cap": {"quick": 600, "thorough": 2400},
         "rule": "complete control-function table: CSI final 0x40..0x7E x 8 intermediates x parameter tuples of length 0..6 over {1,0,H,W,2^16,10^6,2^31-1} with <=2 (thorough <=3, full for <=4 parameters) "
-                "positions different from 1, in 5 start contexts (fresh, scrollback, top/bottom margins, all margins, and the non-terminal buffer the file loaders use) on 80x25 and 132x60, a second family 'state-setting command then work probe' (every row with <=1 parameter away from its default, resize / margin pairs of extremes, followed by 9 probes whose cost is bounded by the state left behind) in the terminal and the file-loader context; plus explicit shape lists (DCS macro repeat / recursion shapes, macros made of 64 / 4000 / 65535 commands that each do a screen of work (REP IL DL ICH DCH ECH SD SU DECFRA ED DECERA LF CUD RI), macros under huge ids followed by the macro-space reports, sixel raster/repeat/colour headers, Avatar repeat and goto byte pairs, "
+                "positions different from 1, in 5 start contexts (fresh, scrollback, top/bottom margins, all margins, and the non-terminal buffer the file loaders use) on 80x25 and 132x60, a second family 'state-setting command then work probe' (every row with <=1 parameter away from its default, resize / margin pairs of extremes, followed by 9 probes whose cost is bounded by the state left behind) in the terminal and the file-loader context; plus explicit shape lists (DCS macro repeat / recursion shapes, macros made of 64 / 4000 / 65535 commands that each do a screen of work (REP IL DL ICH DCH ECH SD SU DECFRA ED DECERA LF CUD RI, raster-only sixel images followed by cursor right / form feed / clear screen, printing in insert mode without autowrap), macros under huge ids followed by the macro-space reports, sixel raster/repeat/colour headers, Avatar repeat and goto byte pairs, "
                 "PSF1/PSF2/raw font payload headers, music/OSC/SGR numbers); per case CPU, peak heap and allocation-scaling are measured in the worker; non-trivial = the input made the engine allocate",
         "level_text": "every row of the control-function table (deviation-bounded) and every listed header shape is executed on the real parsers under a counting allocator and a CPU clock; nothing is sampled",
         "level_note": "limits: 0.5 s CPU and 64 MiB peak live heap per input (legitimate work measured at <1 ms / <3 MiB); the file-header part of the property is covered by the C02 fault engine's header-extreme stratum under the same limits",
@@ -37,7 +37,7 @@ PROPS = {
         "bin": "px_text", "budget_ms": 30000, "wall_cap": {"quick": 600, "thorough": 2400},
         "rule": "documents: all rows of width 1..=3 (thorough 4) over an 8-cell alphabet with SAUCE carrying the width (also as 1- and 2-row documents); width 80 rows prefix(<=2 cells).filler.suffix(<=2 cells) with 3 fillers (runs starting at column 0 and ending at 78/79); "
                 "all ordered pairs of a ~28-cell extended alphabet (RGB and xterm colours, bold flag, bright backgrounds, every extended attribute the writer emits, blank variants 0/255, control characters under IcyTerm handling) under 27 (screen preparation x control handling x colour mode) x 5 encoding variants; "
-                "runs of length 1..=8 of every extended cell at four row placements under these vectors (+ repeat sequences without cursor forward); a 9-row core set under every one of the 6912 option vectors; framed rows at SAUCE widths 81 / 100 / 132; framed rows and all ordered pairs of 24 cells under 3 palettes whose colours sit at other positions (entry 0 blue / an RGB colour, DOS colours permuted) x 3 colour modes; cells with a blink flag in ice colour buffers; rows starting with the characters EF BB BF; the row families under every vector within 1 (thorough 2) option of the default; heights {1,2,25,60} x widths {1,2,79,80,81,132}. oracle: same character, displayed fg (non-blank glyphs), bg and blink per cell",
+                "runs of length 1..=8 of every extended cell at four row placements under these vectors (+ repeat sequences without cursor forward); a 9-row core set under every one of the 6912 option vectors; framed rows at SAUCE widths 81 / 100 / 132; framed rows and all ordered pairs of 24 cells under 3 palettes whose colours sit at other positions (entry 0 blue / an RGB colour, DOS colours permuted) x 3 colour modes; cells with a blink flag in ice colour buffers; rows starting with the characters EF BB BF; text rows separated by 1..58 rows of blanks in several attributes (written as cursor movements), bold cells of every dark colour under a palette whose bright entries differ from the DOS ones, a canvas one row taller than its layer; the row families under every vector within 1 (thorough 2) option of the default; heights {1,2,25,60} x widths {1,2,79,80,81,132}. oracle: same character, displayed fg (non-blank glyphs), bg and blink per cell",
         "level_text": "every document of the stated small scope and every option vector (6912) on a core set is written by the real ANSI writer, parsed by the real loader and compared cell by cell",
         "level_note": "foreground is not compared on blank glyphs; 0/32/255 compare as equal blanks only when whitespace normalisation is on; rows below the writer's last non-blank row may be missing; UTF-8 'modern terminal' output excluded by the statement",
         "technique": "small-scope exhaustive input x configuration enumeration (deviation-bounded product for the wide option space) with a round-trip oracle",
@@ -56,7 +56,7 @@ PROPS = {
         "bin": "px_binfmt", "budget_ms": 30000, "wall_cap": {"quick": 600, "thorough": 2400},
         "rule": "per format (xb, bin, adf, idf, tnd): dimension menus combined with <=2 (thorough 3) deviations from a base document (XBin: 7 widths x 6 heights x 7 font set-ups x palette x blink/ice x compression), "
                 "pair sweeps in which every (character, attribute byte) pair occurs, all rows of width <=3 over an 8-cell alphabet; each document saved by the real writer, loaded by the real loader and compared cell by cell, "
-                "and the saved bytes decoded by independent decoders written from the specification files (XBin, BIN, ADF, IDF); re-save stability over every truncation / header corruption / 16-bit field extreme of 14 seed files",
+                "and the saved bytes decoded by independent decoders written from the specification files (XBin, BIN, ADF, IDF); 17 special documents per format (canvas larger than its layer, layer moved off, bold on every colour, default font edited in place, SAUCE width limit); the loaded colour mode is compared exactly (blink / ice, not the third mode); re-save stability over every truncation / header corruption / 16-bit field extreme of 14 seed files, incl. a save with default options - a writer that refuses a file its loader accepted is a violation",
         "level_text": "every document of the stated small scope is round-tripped through the real writers and loaders and cross-checked against spec-derived reference decoders; every faulted seed file that a loader accepts is re-saved and re-loaded",
         "level_note": "Unlimited colour mode is outside the domain (no binary format can return it); blinking cells only in blink-mode buffers and backgrounds 8..15 only in ice buffers; BIN only with SAUCE, ADF only width 80, Tundra/IDF/ADF only ice",
         "technique": "small-scope exhaustive input enumeration with a round-trip oracle and an independent reference decoder (model) whose output is compared with the implementation on every case",
@@ -95,7 +95,7 @@ PROPS = {
         "bin": "px_icy", "budget_ms": 30000, "mem_cap_mb": 2048, "wall_cap": {"quick": 600, "thorough": 2400},
         "rule": "documents: a two-layer base document varied in every single dimension, every pair of dimensions and every triple of dimensions (quick: the triples with <=100 combinations; thorough: all 255 000 triples) over 19 dimensions - layer count 1..=6, layer size "
                 "{0x0,1x1,2x2,3x1,200x2,1x120,0x2,2x0,200x120}, offsets {-50,-1,0,2,50}, all 32 flag combinations of a normal and of the base layer, 3 modes, colour tag, transparency {0,1,255}, default font page {0,255,300} (with and without a font in that slot), image layers (a picture at offsets (0,0) (1,1) (-1,0) (3,2) (0,-1); role image with its picture removed; a picture and visible cells on the same layer - the one listed known finding), "
-                "titles (empty, Unicode incl. astral, 300 chars, embedded NUL), 5 buffer types, 3 ice modes, 4 palette modes, 4 font modes, palettes of 16/1/17/300 colours, font slots {0}/{0,1}/{0,255,300}/{0: default font edited in place}, a palette with equal neighbouring entries, SAUCE none/plain/with comments and a 1996 date (the date is compared), "
+                "titles (empty, Unicode incl. astral, 300 chars, embedded NUL), 5 buffer types, 3 ice modes, 4 palette modes, 4 font modes, palettes of 16/1/17/300 colours, font slots {0}/{0,1}/{0,255,300}/{0: default font edited in place}/{5} only with every cell on page 5/{0: a font declaring 9 pixels width}, a palette with equal neighbouring entries, SAUCE none/plain/with comments and a 1996 date (the date is compared), "
                 "buffer sizes up to 200x120; cells: every row of length 0..=4 over 8 cell kinds (short, long char, long colour, long font page, invisible, invisible with a character / colours / other flags, transparent fg, transparent bg) in layers of width len, len+1, len+3 (row terminator placement); "
                 "non-trivial = every document (all contain visible cells)",
         "level_text": "every document of the stated small scope is saved by the real Buffer::to_bytes(\"icy\", lossless) and loaded by the real Buffer::from_bytes and compared field by field",
@@ -118,7 +118,7 @@ PROPS = {
         "rule": "per writer that appends SAUCE (ans, asc, avt, pcb, bin, xb, tnd, adf, idf, icy): title/author/group of every length 0..=LEN, LEN+1, LEN+5 x 7 content classes (letters, trailing blank, trailing NULs, inner NUL, leading blank, "
                 "high CP437 / control glyphs, all blanks); every comment count 0..=255 (line lengths cycling 0..=64, lines carrying SAUCE00 / COMNT / EOF bytes); every comment line length 0..=64, 65, 70 x 7 classes as only / second line; "
                 "all 8 flag combinations x (no font + the 16 SAUCE font names), also with an attached record that disagrees with the buffer about ice colours; second generation in the same format and cross-format second generation (saved as X, loaded, saved as every other format Y, loaded); every width 1..=1000 the format can hold (bin / idf: every width 1..=510, odd ones included - a width the BinaryText record cannot store has to be refused by the writer); letter spacing / aspect ratio expected from the ANSi, ASCII and BinaryText variants; an empty title / author / group comes back empty; split: engine-written and hand-made contents (empty, 1 byte, 127/128/129 bytes, endings CR LF / EOF / SAUCE00 / COMNT / EOF SAUCE, "
-                "a complete inner SAUCE record; for ans / avt: cursor jumps below the first screen, cursor down 30 lines, scrolling, margins taken from the screen height) x records declaring the height of the content, a taller and a one line picture x comment counts (all 0..=255 on the engine document; {0,1,2,3,254,255} on the others, thorough all) x 2 comment styles appended by a reference SAUCE writer; non-trivial = every loadable case",
+                "a complete inner SAUCE record; for ans / avt: cursor jumps below the first screen, cursor down 30 lines, scrolling, margins taken from the screen height, erase down / erase in line in colour, insert line, 29 line feeds) x records declaring the height of the content, a taller and a one line picture x comment counts (all 0..=255 on the engine document; {0,1,2,3,254,255} on the others, thorough all) x 2 comment styles appended by a reference SAUCE writer; non-trivial = every loadable case",
         "level_text": "every value of each SAUCE field dimension (lengths, counts, flags, fonts, widths) is written by the real writers and read back by the real loader; every listed content x comment count is split by the real extractor and the pictures compared",
         "level_note": "string fields compare by what a fixed-width padded field can carry (trailing blanks / NULs are padding; a zero-terminated field ends at its first NUL); pictures compare cell by cell, the taller buffer may only have blank rows more",
         "technique": "exhaustive enumeration of finite field domains (lengths, counts, flag sets, widths) on the implementation with a round-trip oracle and a metamorphic content-vs-content+SAUCE oracle using an independent reference SAUCE writer",
@@ -137,7 +137,7 @@ PROPS = {
     "C13": {
         "bin": "px_layers", "budget_ms": 30000, "wall_cap": {"quick": 600, "thorough": 2400},
         "rule": "all stacks of 1 and 2 layers over the rich layer menu (3 sizes x 4 offsets x 3 modes x alpha x visible x up to 15 contents incl. transparent-colour half blocks, visible NUL and invisible cells) and all stacks of 3 (thorough 4) layers over the small menu; "
-                "laws L1-L10 (L1: empty alpha layer of every mode and with its own default font page anywhere; L4: an opaque layer of every mode hides what is beneath; L6: a layer placed with set_offset after a preview offset; L7: row storage - trailing rows not stored / rows stored beyond the height; L8: topmost first among chars / attributes layers; L9: invisible cells of alpha layers that hold a character, colours and other flags; L10: the visible cell of a topmost normal layer is shown, every colour of it that is not the transparent colour) and the reference compositor R evaluated on every stack at every position of the bounding box + 2 cells; non-trivial = the stack shows at least one visible cell",
+                "laws L1-L10 (L1: empty alpha layer of every mode and with its own default font page anywhere; L4: an opaque layer of every mode hides what is beneath; L6: a layer placed with set_offset after a preview offset; L7: row storage - trailing rows not stored / rows stored beyond the height; L8: topmost first among chars / attributes layers; L9: invisible cells of alpha layers that hold a character, colours and other flags; L10: the visible cell of a topmost normal layer is shown, every colour of it that is not the transparent colour; L11: the layers beneath any split point can be replaced by one layer that holds what they display) and the reference compositor R evaluated on every stack at every position of the bounding box + 2 cells; non-trivial = the stack shows at least one visible cell",
         "level_text": "the complete small scope of layer stacks is composited by the real Buffer::get_char and checked against metamorphic stacking laws and a reference compositor transcribed from the statement",
         "level_note": "invisible results compare as invisible only; the reference compositor applies to normal-mode layers without transparent colours, the laws to all stacks",
         "technique": "small-scope exhaustive enumeration with metamorphic oracles and a reference model compared on every case",
@@ -200,7 +200,7 @@ PROPS = {
                 "in the initial state; the deviation-bounded part in 7 further start contexts (small / inverted viewport, xor + user line + user fill pattern, saved image, vertical font + text window, changed palette, button style); 6 terminators; text commands x 25 text tails "
                 "(text variables, button label separators, continuation lines, icon file names) x numeric prefix lengths 0..=12; all ordered command pairs x 9 digit fills; every command followed by 14 well-formed drawing probes; a continuation backslash at every position of every parameter string; flood fills from an 8x6 grid over 7 scenes with obstacles x 6 fill styles x 3 borders and inside 6 viewports (beyond the screen, small, lower right, inverted, one pixel). "
                 "IGS: every command letter x 0..=12 parameters over a 24-value menu (0..9, 15, 16, 99, 199, 200, 319, 320, 639, 640, 9998, 99999, -1, -50, empty): 4 constant vectors with <=1 (thorough 2 for <=6 parameters) positions changed, in 6 start contexts; "
-                "loop shapes (from/to/step over {0,3,99999}, 3 separators, 5 parameter templates, 4 counts, 4 looped commands), chains of every command with 8 followers, write-text, every extended sub command 0..=12 x 0..=8 parameters, pauses and loop delays; every command with 0..=8 parameters (first varied separately) followed by 22 well-formed drawing probes (incl. grab / paste of pieces that reach beyond the grabbed picture); flood fills over 5 scenes; "
+                "loop shapes (from/to/step over {0,3,99999}, 3 separators, 5 parameter templates, 4 counts, 4 looped commands), chains of every command with 8 followers, write-text, every extended sub command 0..=12 x 0..=8 parameters, pauses and loop delays, blits of all 5 types with far away / negative destinations directly and through the loop arithmetic, numbers beyond 32 bit in every loop position, every command letter as loop body with small bounds and steps 0 / 1 / 2 / -1 (a stream of single digit numbers must end its loops within 20000 polls), characters above U+00FF at every text and parameter place of both emulations; every command with 0..=8 parameters (first varied separately) followed by 22 well-formed drawing probes (incl. grab / paste of pieces that reach beyond the grabbed picture); flood fills over 5 scenes; "
                 "every byte after 8 lead-ins. per stream: catch_unwind per character, CPU <= 0.5 s, wall <= 1.5 s, canvas read back and checked for width x height x 4 bytes; non-trivial = every batch",
         "level_text": "every command of both command tables is executed on the real parsers with every parameter string of the deviation-bounded scope in every start context; nothing is sampled (the 'randomly beyond' part of the quantifier is outside this technique and not claimed)",
         "level_note": "icon / file commands see a harness-owned directory with 4 fixture files (valid, truncated, oversized header, wide); pending IGS loop steps are polled for at most 64 steps",
